@@ -155,7 +155,28 @@ def run(ctx):
                  (c.callee and 'nodes' in c.callee and c.callee.startswith('dr_pi_dag'))]
         ctx.ob('C19.2', name + ': node table built before the edges', bool(first) and all(f.dominates_f(x, cs[0][0]) for x in first),
                'edges are enumerated over an existing node table', loc=f.loc, detail=str([c.callee for c in first]))
-    ctx.floor('C19.2', 12)
+    # both pipelines start from an initialised DAG object and string table and carry the header fields over
+    for name, src in (('dr_make_pi_dag', None), ('dr_copy_pi_dag', 'a1')):
+        f = ctx.need_fn(w, name)
+        G = f.params[0]['id']
+        first_stage = call_sites(f, 'dr_pi_dag_enum_edges')
+        ini = [c for c in call_sites(f, 'dr_pi_dag_init') if same_value(f, c.args[0], G)]
+        ctx.ob('C19.2', name + ': DAG object initialised first', len(ini) == 1 and bool(first_stage) and f.dominates_f(ini[0], first_stage[0]),
+               'dr_pi_dag_init(G) before anything is built into G', loc=f.loc)
+        sti = call_sites(f, 'dr_string_table_init')
+        users = [c for c in f.calls() if c.callee in ('dr_pi_dag_enum_nodes', 'dr_pi_dag_copy_and_prune_nodes', 'dr_pi_dag_set_string_table')]
+        ctx.ob('C19.2', name + ': string table initialised before it is filled', len(sti) == 1 and bool(users) and
+               all(f.dominates_f(sti[0], u) for u in users) and all(any(same_value(f, a_, sti[0].args[0]) for a_ in u.args) for u in users),
+               'dr_string_table_init(st) dominates the stages that intern file names into st', loc=f.loc)
+        for fld in ('num_workers', 'start_clock'):
+            sts = [st for st in f.stores_to(PI + fld) if same_value(f, f.ap(st.ops[1]).root, G)]
+            ok = len(sts) == 1
+            if ok and src:
+                l = f.get(f.strip(sts[0].ops[0])) if isinstance(sts[0].ops[0], str) else None
+                ok = l is not None and l.op == 'load' and f.field(l) == PI + fld and same_value(f, f.ap(l.ops[0]).root, src)
+            ctx.ob('C19.2', '%s: header field %s set' % (name, fld), ok,
+                   'the file header carries num_workers and start_clock; the shrinking copy takes them from its input', loc=f.loc)
+    ctx.floor('C19.2', 20)
     rule3_shrink(ctx, w)
     rule4_strings(ctx, w)
     rule5_growth(ctx)
@@ -726,6 +747,12 @@ MUTANTS = [
      'edits': [(DUMP, "  while (i < n - 1) {", "  while (i < n) {")]},
     {'name': 'ready counts cleared one past the end (sweep M0062)', 'expect': 'C19.7',
      'edits': [('src/profiler/chronological.c', "  for (i = 0; i < G->n; i++) {\n    ready_count[i] = 0;", "  for (i = 0; i <= G->n; i++) {\n    ready_count[i] = 0;")]},
+    {'name': 'shrinking copy loses the worker count (sweep M0015-like)', 'expect': 'C19.2',
+     'edits': [(DUMP, "  G_->num_workers = G->num_workers;\n", "")]},
+    {'name': 'dump pipeline builds into an uninitialised DAG object (sweep M0056)', 'expect': 'C19.2',
+     'edits': [(DUMP, "  G->start_clock = start_clock;\n  dr_pi_dag_init(G);", "  G->start_clock = start_clock;")]},
+    {'name': 'string table used uninitialised (sweep M0061)', 'expect': 'C19.2',
+     'edits': [(DUMP, "  dr_string_table st[1];\n  dr_string_table_init(st);\n  G->num_workers", "  dr_string_table st[1];\n  G->num_workers")]},
     {'name': 'edge pointers set before sorting', 'expect': 'C19.2',
      'edits': [(DUMP, "  dr_pi_dag_enum_edges(G_);\t   /* G_->E */\n  dr_pi_dag_sort_edges(G_);\n  dr_pi_dag_set_edge_ptrs(G_);", "  dr_pi_dag_enum_edges(G_);\t   /* G_->E */\n  dr_pi_dag_set_edge_ptrs(G_);\n  dr_pi_dag_sort_edges(G_);")]},
 ]
